@@ -116,3 +116,39 @@ Theorem C05_from_the_text :
          packed_agrees (b_gi b) t.
 Proof. exact EndToEndWf.text_packed_agrees. Qed.
 Print Assumptions C05_from_the_text.
+
+From YG Require Import LRBase PackCore Pipeline PipelineProofs PackOffsets.
+Close Scope Z_scope.
+Open Scope nat_scope.
+
+(* the condition on the offset vector is itself a consequence of the two proved conditions as soon as every row has a non-error cell among the terminal columns (that cell, or the error code in column 0, differs from the row default and is stored at offset + column >= 0) *)
+Theorem C05_offsets_from_actions :
+  forall (dense : list (list Z)) (nterm nsyms : nat),
+         0 < nsyms ->
+         (forall s a : nat, s < length dense -> a < nsyms -> cellz dense s a <> 0%Z) ->
+         (forall s : nat, s < length dense -> cellz dense s 0 = err_code (length dense)) ->
+         (forall s : nat,
+          s < length dense ->
+          exists a : nat, a <= nterm /\ a < nsyms /\ cellz dense s a <> err_code (length dense)) ->
+         forall s : nat,
+         s < length dense ->
+         (0 <= nth s (p_off (compress dense nterm nsyms (length dense))) 0 + Z.of_nat (S nterm))%Z.
+Proof. exact PackOffsets.offsets_from_actions. Qed.
+Print Assumptions C05_offsets_from_actions.
+
+From YG Require Import LRBase CompleteDriver LR0Build Resolve PackCore Pipeline PipelineRun Front WfGrammar YParser EndToEnd EndToEndWf PackOffsetsText.
+Close Scope Z_scope.
+Open Scope nat_scope.
+
+(* from the bytes of the grammar file, with the condition stated on the matrix alone: if every state has some action other than the error action on a terminal column, the packed lookup of every (state, symbol) equals the cell of the matrix *)
+Theorem C05_from_the_text_actions :
+  forall (s : list Ascii.ascii) (b : built) (t : tables),
+         generate_text s = GOk b t ->
+         (forall q : nat,
+          q < length (t_aut t) ->
+          exists a : nat,
+            a <= gi_nterm (b_gi b) /\
+            a < gi_nsyms (b_gi b) /\ cellz (t_dense t) q a <> err_code (length (t_aut t))) ->
+         packed_agrees (b_gi b) t.
+Proof. exact PackOffsetsText.text_packed_agrees_actions. Qed.
+Print Assumptions C05_from_the_text_actions.
